@@ -26,6 +26,8 @@ for m in rbt_shapes(3):
     if m:
         UNITS.append(T("rbt_remove_d3_s%02x" % m, "h_remove", 3, defs=["A_SIZE_POINTER=1", "SHAPE=0x%x" % m], functions=REM, bound=b, timeout=900))
 UNITS += [
+    U("rbt_lemma_remove_step", "rbt_lemma.c", "h_remove_step", level="L", functions=["a_rbt_remove_adjust", "a_rbt_set_parents", "a_rbt_set_parent_color", "a_rbt_set_black"], min_obl=5, unwind=9,
+      defines=["LEMMA_REMOVE"], cbmc=["--object-bits", "10"], solver="cadical", timeout=1200, key=["remove_adjust step \\(done\\)", "remove_adjust step \\(continue\\)"]),
     U("rbt_packed_accessors", "trees.c", "h_packed", level="P", functions=["a_rbt_set_parent_color", "a_rbt_set_parent", "a_rbt_set_black", "a_rbt_parent", "a_rbt_color", "a_rbt_init"], replay=RP, min_obl=3, defines=["TREE_RBT", "D=2"], cbmc=["--object-bits", "10"]),
     T("rbt_insert_d2_packed", "h_insert", 2, tiers=("thorough",), functions=INS, timeout=1800, cost=100, mem_gb=40),
     T("rbt_remove_d2_packed", "h_remove", 2, tiers=("thorough",), functions=REM, timeout=1800, cost=100, mem_gb=40),
